@@ -36,6 +36,11 @@ type Conn struct {
 	Send   chan mocrelay.ServerMsg
 	stop   chan struct{}
 
+	// Think: a scheduling point before every message the writer script sends, so that the moment a
+	// client decides to send (the Call stamp) is explored independently of when the previous message
+	// was taken
+	Think bool
+
 	Sent       []*Sent
 	Got        []*Got
 	ServeErr   error
@@ -61,6 +66,9 @@ func NewConn(h *vsched.H, name string, parent context.Context, handler mocrelay.
 // Write sends the script, one message after the other, stamping call and return.
 func (c *Conn) Write(msgs ...mocrelay.ClientMsg) {
 	for _, m := range msgs {
+		if c.Think {
+			vsched.Yield()
+		}
 		s := &Sent{Msg: m, Call: c.H.Stamp()}
 		c.Sent = append(c.Sent, s)
 		select {
